@@ -157,6 +157,14 @@ def run_harness(scratch, ob, log):
     cmd = harness_cmd(ob["harness"], ob.get("kani_args", ()))
     rc, out, secs = run_cmd(cmd, scratch, ob.get("timeout", 600), ob.get("mem_gb", 16))
     status, detail = classify(rc, out)
+    if status == "undecided" and str(detail.get("reason", "")).startswith("verdict-FAILED"):
+        # the verifier said FAILED but printed no per-check result (seen once, on a machine shared with three other checks):
+        # no decision can be read from that, so the harness is run once more before it is reported as undecided
+        log(f"[kani] {ob['harness']}: FAILED without per-check results, running it once more")
+        rc, out, secs2 = run_cmd(cmd, scratch, ob.get("timeout", 600), ob.get("mem_gb", 16))
+        secs += secs2
+        status, detail = classify(rc, out)
+        detail["rerun"] = "first run ended FAILED without per-check results"
     detail["wall_s"] = round(secs, 1)
     detail["cmd"] = " ".join(cmd)
     log(f"[kani] {ob['harness']}: {status}" + (f" ({detail.get('reason')})" if status == "undecided" else "") +
